@@ -306,6 +306,8 @@ fn make_sandbox() -> Sandbox {
     let sb = root.join("l1/l2/sb");
     std::fs::create_dir_all(sb.join("work")).unwrap();
     std::fs::create_dir_all(sb.join("out.old")).unwrap();
+    std::fs::create_dir_all(sb.join("OUT")).unwrap();
+    std::fs::write(sb.join("OUT/b"), b"DECOY-B").unwrap();
     std::fs::write(sb.join("decoy.txt"), b"DECOY-1").unwrap();
     std::fs::write(sb.join("a"), b"DECOY-a").unwrap();
     std::fs::write(sb.join("out.old/b"), b"DECOY-b").unwrap();
@@ -388,7 +390,10 @@ fn execute(bin: &Path, case: &Case) -> Result<Outcome, String> {
         std::fs::create_dir(&sbx.out).map_err(|e| e.to_string())?;
     }
     if case.dir_symlink {
-        std::os::unix::fs::symlink("../out.old", sbx.out.join("lnk")).map_err(|e| e.to_string())?;
+        // the link's target: a sibling whose name extends the output directory's textually, or equals it up to
+        // letter case (chosen from the members, so that a case replays identically)
+        let target = if case.members.len() % 2 == 0 { "../out.old" } else { "../OUT" };
+        std::os::unix::fs::symlink(target, sbx.out.join("lnk")).map_err(|e| e.to_string())?;
     }
     let (cwd, out_arg): (PathBuf, OsString) = match case.out_mode {
         0 => (sbx.root.clone(), sbx.out.clone().into_os_string()),
@@ -456,7 +461,7 @@ fn check_case(rep: &mut Report, model: &mut Model, bin: &Path, case: &Case, poli
     };
     if case.dir_symlink {
         let n0 = o.outside.len();
-        o.outside.retain(|(p, b, a)| !(b.is_none() && *a == Some(Entry::Dir) && p.starts_with(b"l1/l2/sb/out.old/")));
+        o.outside.retain(|(p, b, a)| !(b.is_none() && *a == Some(Entry::Dir) && (p.starts_with(b"l1/l2/sb/out.old/") || p.starts_with(b"l1/l2/sb/OUT/"))));
         if o.outside.len() != n0 {
             rep.count("note:directories-created-through-preexisting-symlink");
         }
